@@ -850,7 +850,7 @@ func (c *Conn) finish(r *Ctx, stream uint32, err error) {
 	// dispatch holds r while this runs, and r is the Ctx the pending body
 	// belongs to, so its stream is closed here directly: deletePending would
 	// take the Ctx a second time, and the lock is not reentrant.
-	if pb := c.dropPending(stream); pb != nil {
+	if pb, streamed := c.dropPending(stream); streamed {
 		c.closeBodyStream(pb)
 	}
 
@@ -1265,20 +1265,22 @@ func (c *Conn) signalWindow() {
 	}
 }
 
-// dropPending forgets what is left of a request body and returns it.
-func (c *Conn) dropPending(id uint32) *pendingBody {
+// dropPending forgets what is left of a request body and returns it, with
+// whether it still has a body stream to close.
+func (c *Conn) dropPending(id uint32) (pb *pendingBody, streamed bool) {
 	c.sendLck.Lock()
-	pb := c.pending[id]
+	pb = c.pending[id]
 	delete(c.pending, id)
+	streamed = pb != nil && pb.stream != nil
 	c.sendLck.Unlock()
 
-	return pb
+	return pb, streamed
 }
 
 func (c *Conn) deletePending(id uint32) {
-	pb := c.dropPending(id)
+	pb, streamed := c.dropPending(id)
 
-	if pb == nil || pb.stream == nil {
+	if !streamed {
 		return
 	}
 
@@ -1342,19 +1344,31 @@ func (c *Conn) sendPending(id uint32) error {
 		// caller's code and may block for as long as it likes, so it does not
 		// run under the lock the read loop needs to hand window back.
 		if len(pb.body) == 0 && pb.stream != nil && !pb.drained {
+			// The read loop and the cancel timer close the stream, and clear
+			// the field, whenever the request ends under them, so the reader
+			// is picked up while the lock is still held.
+			stream := pb.stream
+
 			c.sendLck.Unlock()
 
-			if err := c.refillPending(pb); err != nil {
-				// The body cannot be finished, and the peer is part way
-				// through one it would otherwise wait for.
+			if err := c.refillPending(pb, stream); err != nil {
 				c.deletePending(id)
-				c.cancelStream(id, InternalError)
 
-				// Nor can the request: nothing else is going to end it, the
-				// server has just been told to forget the stream.
-				if c.takeReq(id) {
-					atomic.AddInt32(&c.openStreams, -1)
+				// Whoever takes the request off the table ends it. A reader
+				// fails like this when the response, or the timer, got there
+				// first and closed it: the request has its answer then, and
+				// the Ctx may already be back in the pool or carrying the next
+				// request.
+				if !c.takeReq(id) {
+					return nil
 				}
+
+				atomic.AddInt32(&c.openStreams, -1)
+
+				// The body cannot be finished, and the peer is part way
+				// through one it would otherwise wait for. Nor can the
+				// request: nothing else is going to end it now.
+				c.cancelStream(id, InternalError)
 
 				pb.ctx.markFinished()
 				pb.ctx.resolve(fmt.Errorf("reading the request body: %w", err))
@@ -1440,7 +1454,7 @@ func (c *Conn) flushData(id uint32, body []byte, end bool) error {
 
 // refillPending pulls the next chunk of a streamed request body into the
 // body's own buffer.
-func (c *Conn) refillPending(pb *pendingBody) error {
+func (c *Conn) refillPending(pb *pendingBody, stream io.Reader) error {
 	// Read straight into the buffer the frames are cut from: going via a
 	// scratch buffer would copy every byte of the body a second time.
 	if cap(pb.buf) < int(defaultDataFrameSize) {
@@ -1449,7 +1463,7 @@ func (c *Conn) refillPending(pb *pendingBody) error {
 
 	buf := pb.buf[:defaultDataFrameSize]
 
-	n, err := pb.stream.Read(buf)
+	n, err := stream.Read(buf)
 	if n > 0 {
 		pb.body = buf[:n]
 		pb.read += int64(n)
@@ -1481,11 +1495,17 @@ func (c *Conn) refillPending(pb *pendingBody) error {
 // The caller must hold the Ctx: the Request stops being ours the moment
 // RoundTrip returns, and a caller that releases it closes the stream anyway.
 func (c *Conn) closeBodyStream(pb *pendingBody) {
-	if pb.stream == nil {
+	// The write loop looks at the field under sendLck, from outside the Ctx.
+	c.sendLck.Lock()
+
+	open := pb.stream != nil
+	pb.stream = nil
+
+	c.sendLck.Unlock()
+
+	if !open {
 		return
 	}
-
-	pb.stream = nil
 
 	_ = pb.ctx.Request.CloseBodyStream()
 }
